@@ -4,7 +4,7 @@
    The full statement is REFUTED on that tree (open finding
    "sparse-index-entry-before-offset+maxbytes-le-distance"); it is proved on the
    complement of the finding's input class. *)
-From KS Require Import lib.Base model.ReadPath proofs.ReadPathProofs proofs.ReadPathFloor.
+From KS Require Import lib.Base model.ReadPath model.ReadRestore proofs.ReadPathProofs proofs.ReadPathFloor proofs.ReadRestoreProofs.
 Open Scope Z_scope.
 
 (* The property: for every history, index interval, cache state, fetch offset o at or
@@ -50,6 +50,16 @@ Theorem C04_progress_partial : forall iv rq start ops cached o max,
   exists d, read l cached o max = ROk d /\ progress_run (live l) o d.
 Proof. exact read_progress_partial. Qed.
 Print Assumptions C04_progress_partial.
+
+(* The same across restarts (model/ReadRestore.v). *)
+Theorem C04_progress_partial_restart : forall iv rq start xs cached o max,
+  Forall valid_xop xs ->
+  let l := xrun (init_log iv rq start) xs in
+  0 < max -> (exists b, In b (live l) /\ o <= b_last b) ->
+  entry_distance l o < max ->
+  exists d, read l cached o max = ROk d /\ progress_run (live l) o d.
+Proof. exact read_progress_partial_restart. Qed.
+Print Assumptions C04_progress_partial_restart.
 
 (* A read below the end of the live log never fails, for any byte limit. *)
 Theorem C04_read_succeeds : forall iv rq start ops cached o max,
